@@ -69,15 +69,20 @@ Definition truthy (s : bytes) : bool :=
 Definition to_keep_next_hop_route (setting env : bytes) : bool :=
   truthy (match setting with [] => env | _ => setting end).
 
+(* main.go startProxy / getDefaultDialogTimeout: a dialogTimeout that is absent, zero or negative stands for 1200 s
+   (the environment variable DEFAULT_DIALOG_TIMEOUT, unset in every run, could change that default) *)
+Definition effective_dialog_timeout (dt : Z) : Z := if Z.leb dt 0 then 1200 else dt.
+
 (* which repairs the modelled tree contains (all true = the current tree; a false flag gives
    the pre-fix behaviour, kept for the *_legacy_refuted witnesses) *)
 Record fixes := { fx_wiring : bool;        (* startProxy argument order (received-support) *)
                   fx_udp_via_listener : bool; (* findClientTransport: listener socket only for UDP next hops *)
                   fx_indialog_invite : bool;  (* findBackendByDialog also for INVITE / SUBSCRIBE *)
                   fx_bracket_host : bool;     (* handleRawMessage: host[1:len-1] guarded *)
-                  fx_resolved_key : bool }.   (* the per-transaction TCP entry is filed and dropped under the RESOLVED address *)
+                  fx_resolved_key : bool;     (* the per-transaction TCP entry is filed and dropped under the RESOLVED address *)
+                  fx_stale_pin : bool }.      (* findBackendByDialog forgets a pin whose backend object has left the set *)
 Definition all_fixed : fixes := {| fx_wiring := true; fx_udp_via_listener := true; fx_indialog_invite := true; fx_bracket_host := true;
-                                   fx_resolved_key := true |}.
+                                   fx_resolved_key := true; fx_stale_pin := true |}.
 
 (* ------------------------------------------------------------------ transports *)
 Inductive tkind := KUdp | KTcpListen | KTcpConn.
@@ -438,6 +443,11 @@ Definition find_backend_by_dialog (e : env) (p : pstate) : M (pstate * option br
     | Some d =>
         let '(pins1, ob) := pins_get (e_now e) d (ps_pins p) in
         let p1 := with_pins p pins1 in
+        (* the backend object that answered the dialog has left the set (closed): the binding is forgotten and the
+           request treated like one of an unknown dialog *)
+        if (fx_stale_pin (e_fx e) && match ob with Some v => negb (bref_alive p1 (bref_of_val v)) | None => false end)%bool
+        then mret (with_pins p1 (pins_remove d (ps_pins p1)), None)
+        else
         mlet ss := mtry (s_get_raw (s2b "Subscription-State")) in
         let p2 := if (beq meth (s2b "NOTIFY") && match ss with Some s => beq s (s2b "terminated") | None => false end)%bool
                   then with_pins p1 (pins_remove d (ps_pins p1)) else p1 in
